@@ -8,6 +8,7 @@ import (
 	"net/http"
 	"net/http/httptest"
 	"sort"
+	"strconv"
 	"strings"
 
 	"github.com/zeromicro/go-zero/rest/pathvar"
@@ -27,6 +28,23 @@ func (h *handler) ServeHTTP(rw http.ResponseWriter, r *http.Request) {
 	h.w.gotIdx = h.idx
 	h.w.gotVars = pathvar.Vars(r)
 	rw.WriteHeader(handlerStatus)
+}
+
+// Custom NotFound / NotAllowed handlers (configuration dimension "hooks"): each counts its calls
+// and writes its own status so that it can be told apart from the router's default answers.
+const (
+	hookNFStatus = 290
+	hookNAStatus = 291
+)
+
+type hookHandler struct {
+	n      *int
+	status int
+}
+
+func (h *hookHandler) ServeHTTP(rw http.ResponseWriter, _ *http.Request) {
+	*h.n++
+	rw.WriteHeader(h.status)
 }
 
 // lightRW is a minimal http.ResponseWriter (status + headers as they are when the status is
@@ -66,6 +84,9 @@ type counters struct {
 	SpelledDupRejected, SpelledDupAccepted         int64
 	Nontrivial                                     int64
 	Failures, CrossChecked                         int64
+	HookTables, HookNF, HookNA                     int64
+	TreeTables, TreeSearches, TreeDupSlashRejected int64
+	TreeEmptySegAccepted                           int64
 }
 
 func (c *counters) add(o *counters) {
@@ -89,19 +110,28 @@ func (c *counters) add(o *counters) {
 	c.Nontrivial += o.Nontrivial
 	c.Failures += o.Failures
 	c.CrossChecked += o.CrossChecked
+	c.HookTables += o.HookTables
+	c.HookNF += o.HookNF
+	c.HookNA += o.HookNA
+	c.TreeTables += o.TreeTables
+	c.TreeSearches += o.TreeSearches
+	c.TreeDupSlashRejected += o.TreeDupSlashRejected
+	c.TreeEmptySegAccepted += o.TreeEmptySegAccepted
 }
 
 // cand is a violation candidate; per class the smallest one (by cost, then text) is kept.
 type cand struct {
 	class    string
-	cost     [3]int
+	cost     [4]int
 	key      string
 	regs     []regSpec
-	mi, pid  int // request (mi = -1: registration failure)
+	mi, pid  int  // request (mi = -1: registration failure)
+	nf, na   int  // custom NotFound / NotAllowed handler installed before registration #nf / #na (-1: none)
+	tree     bool // the table was driven through search.Tree directly (family "tree")
 	exp, got string
 }
 
-func cmpCost(a, b [3]int) int {
+func cmpCost(a, b [4]int) int {
 	for i := range a {
 		if a[i] != b[i] {
 			if a[i] < b[i] {
@@ -135,6 +165,12 @@ type worker struct {
 	crossCheck bool // also serve through httptest.ResponseRecorder and compare
 	lw         lightRW
 	onlyMethod int // >= 0: serve only this request method (replay)
+	// configuration dimension "hooks": position (0..len(table)) at which a custom NotFound /
+	// NotAllowed handler is installed, counted in registrations done before it; -1 = not installed
+	nf, na           int
+	nfCalls, naCalls int
+	nfH, naH         hookHandler
+	treeMode         bool // set by runTree (for record)
 	// what is in flight (for panic reports)
 	curRegs []regSpec
 	curMi   int
@@ -142,7 +178,9 @@ type worker struct {
 }
 
 func newWorker() *worker {
-	w := &worker{viol: map[string]*cand{}, buf: make([]int, 0, 8), onlyMethod: -1, lw: lightRW{h: http.Header{}}}
+	w := &worker{viol: map[string]*cand{}, buf: make([]int, 0, 8), onlyMethod: -1, lw: lightRW{h: http.Header{}}, nf: -1, na: -1}
+	w.nfH = hookHandler{&w.nfCalls, hookNFStatus}
+	w.naH = hookHandler{&w.naCalls, hookNAStatus}
 	for i := range w.hs {
 		w.hs[i] = handler{idx: i, w: w}
 	}
@@ -174,25 +212,68 @@ func tableString(regs []regSpec) string {
 	return sb.String()
 }
 
+// caseString renders a table (with its configuration) and, when mi >= 0, the request.
+func caseString(regs []regSpec, nf, na int, tree bool, mi, pid int) string {
+	if tree {
+		var ps []string
+		for _, g := range regs {
+			ps = append(ps, strconv.Quote(pats[g.p].raw))
+		}
+		s := "search.Tree with Add of [" + strings.Join(ps, ", ") + "]"
+		if mi >= 0 {
+			s += " Search(" + strconv.Quote(paths[pid].raw) + ")"
+		}
+		return s
+	}
+	s := "table " + tableString(regs) + hooksString(nf, na)
+	if mi >= 0 {
+		s += " request " + allMethods[mi] + " " + paths[pid].raw
+	}
+	return s
+}
+
+// hooksString renders the hook configuration ("" when none is installed).
+func hooksString(nf, na int) string {
+	var out []string
+	if nf >= 0 {
+		out = append(out, fmt.Sprintf("SetNotFoundHandler after %d registration(s)", nf))
+	}
+	if na >= 0 {
+		out = append(out, fmt.Sprintf("SetNotAllowedHandler after %d registration(s)", na))
+	}
+	if len(out) == 0 {
+		return ""
+	}
+	return " with " + strings.Join(out, " and ")
+}
+
 func (w *worker) record(class string, regs []regSpec, mi, pid int, exp, got string) {
 	w.c.Failures++
 	n := 0
 	for _, g := range regs {
 		n += len(pats[g.p].raw)
 	}
-	c := cand{class: class, cost: [3]int{len(regs), n, 0}, mi: mi, pid: pid}
+	// cost: configurations first (default router < hooks installed < direct tree), then table
+	// size, pattern text, request text
+	c := cand{class: class, cost: [4]int{0, len(regs), n, 0}, mi: mi, pid: pid, nf: w.nf, na: w.na, tree: w.treeMode}
+	if w.nf >= 0 {
+		c.cost[0]++
+	}
+	if w.na >= 0 {
+		c.cost[0]++
+	}
+	if w.treeMode {
+		c.cost[0] = 3
+	}
 	if mi >= 0 {
-		c.cost[2] = len(paths[pid].raw)
+		c.cost[3] = len(paths[pid].raw)
 	}
 	group := groupOf(class)
 	old := w.viol[group]
 	if old != nil && cmpCost(c.cost, old.cost) > 0 {
 		return
 	}
-	c.key = tableString(regs)
-	if mi >= 0 {
-		c.key += " " + allMethods[mi] + " " + paths[pid].raw
-	}
+	c.key = caseString(regs, w.nf, w.na, w.treeMode, mi, pid)
 	if old != nil && !c.less(old) {
 		return
 	}
@@ -202,13 +283,13 @@ func (w *worker) record(class string, regs []regSpec, mi, pid int, exp, got stri
 }
 
 // groupOf maps a class "kind:shape+flag..." to its cause group "kind+flag..." (shape and
-// spelling flags dropped). Per group only the smallest failing case is kept, and its full class
+// spelling / "+hooks" configuration flags dropped). Per group only the smallest failing case is kept, and its full class
 // (with the shape of that smallest case) is what gets reported: one class per cause.
 func groupOf(class string) string {
 	kind, rest, _ := strings.Cut(class, ":")
 	parts := strings.Split(rest, "+")
 	for _, f := range parts[1:] {
-		if !strings.HasPrefix(f, "unclean-") {
+		if !strings.HasPrefix(f, "unclean-") && f != "hooks" && f != "tree" {
 			kind += "+" + f
 		}
 	}
@@ -280,6 +361,17 @@ func varsEqual(got map[string]string, pat, req []string) bool {
 }
 
 func (w *worker) observed(rec *lightRW, regs []regSpec) string {
+	s := w.observedRoute(rec, regs)
+	if w.nfCalls > 0 {
+		s += fmt.Sprintf("; custom NotFound handler called %d time(s)", w.nfCalls)
+	}
+	if w.naCalls > 0 {
+		s += fmt.Sprintf("; custom NotAllowed handler called %d time(s)", w.naCalls)
+	}
+	return s
+}
+
+func (w *worker) observedRoute(rec *lightRW, regs []regSpec) string {
 	if w.calls > 0 {
 		s := fmt.Sprintf("handler #%d", w.gotIdx)
 		if w.gotIdx >= 0 && w.gotIdx < len(regs) {
@@ -321,7 +413,22 @@ func (w *worker) runTable(regs []regSpec, reqSet []int, redup bool) (completed b
 	rt := router.NewRouter()
 	acc := w.acc[:0]
 	hasUnclean := false
+	hooked := w.nf >= 0 || w.na >= 0
+	if hooked {
+		w.c.HookTables++
+	}
+	setHooks := func(done int) { // done = number of Handle calls made so far
+		if w.nf == done {
+			rt.SetNotFoundHandler(&w.nfH)
+		}
+		if w.na == done {
+			rt.SetNotAllowedHandler(&w.naH)
+		}
+	}
 	for i, g := range regs {
+		if hooked {
+			setHooks(i)
+		}
 		err := rt.Handle(allMethods[g.m], pats[g.p].raw, &w.hs[i])
 		pi := &pats[g.p]
 		reason := ""
@@ -387,6 +494,16 @@ func (w *worker) runTable(regs []regSpec, reqSet []int, redup bool) (completed b
 	if hasUnclean {
 		w.c.UncleanPatTables++
 	}
+	if hooked {
+		if w.nf > len(regs) || w.na > len(regs) {
+			vlib.Fatal("harness bug: hook position beyond the table %s%s", tableString(regs), hooksString(w.nf, w.na))
+		}
+		setHooks(len(regs))
+	}
+	hookFlag := ""
+	if hooked {
+		hookFlag = "+hooks"
+	}
 
 	for mi := 0; mi < nReqMethods; mi++ {
 		if w.onlyMethod >= 0 && mi != w.onlyMethod {
@@ -395,18 +512,19 @@ func (w *worker) runTable(regs []regSpec, reqSet []int, redup bool) (completed b
 		reqs := w.reqs[mi]
 		for _, pid := range reqSet {
 			w.calls, w.gotIdx, w.gotVars = 0, -1, nil
+			w.nfCalls, w.naCalls = 0, 0
 			w.curMi, w.curPid = mi, pid
 			rec := &w.lw
 			rec.reset()
 			rt.ServeHTTP(rec, reqs[pid])
 			if w.crossCheck {
-				calls, idx, vars := w.calls, w.gotIdx, w.gotVars
+				calls, idx, vars, nfc, nac := w.calls, w.gotIdx, w.gotVars, w.nfCalls, w.naCalls
 				std := httptest.NewRecorder()
 				rt.ServeHTTP(std, reqs[pid])
-				if std.Code != rec.code || allowMask(std.Header()["Allow"]) != allowMask(rec.allow) || w.calls != 2*calls {
-					vlib.Fatal("harness bug: light response writer and httptest.ResponseRecorder disagree on %s %s %s", tableString(regs), allMethods[mi], paths[pid].raw)
+				if std.Code != rec.code || allowMask(std.Header()["Allow"]) != allowMask(rec.allow) || w.calls != 2*calls || w.nfCalls != 2*nfc || w.naCalls != 2*nac {
+					vlib.Fatal("harness bug: light response writer and httptest.ResponseRecorder disagree on %s%s %s %s", tableString(regs), hooksString(w.nf, w.na), allMethods[mi], paths[pid].raw)
 				}
-				w.calls, w.gotIdx, w.gotVars = calls, idx, vars
+				w.calls, w.gotIdx, w.gotVars, w.nfCalls, w.naCalls = calls, idx, vars, nfc, nac
 				w.c.CrossChecked++
 			}
 			w.c.Evals++
@@ -438,6 +556,8 @@ func (w *worker) runTable(regs []regSpec, reqSet []int, redup bool) (completed b
 					kind = "missed-dispatch"
 				case w.calls > 1:
 					kind = "multi-dispatch"
+				case w.nfCalls+w.naCalls > 0:
+					kind = "hook-on-dispatch" // a custom NotFound/NotAllowed handler ran although a route matches
 				case w.gotIdx != a.reg:
 					kind = "wrong-route"
 				case !varsEqual(w.gotVars, cp.segs, paths[pid].segs):
@@ -460,7 +580,7 @@ func (w *worker) runTable(regs []regSpec, reqSet []int, redup bool) (completed b
 					if pats[regs[a.reg].p].unclean {
 						cls += "+unclean-pat"
 					}
-					cls += reqFlags(pid)
+					cls += reqFlags(pid) + hookFlag
 					exp := fmt.Sprintf("handler #%d (%s %s) vars %s status %d", a.reg, allMethods[a.m], pats[regs[a.reg].p].raw,
 						fmtVars(refVars(cp.segs, paths[pid].segs)), handlerStatus)
 					w.record(cls, regs, mi, pid, exp, w.observed(rec, regs))
@@ -469,22 +589,38 @@ func (w *worker) runTable(regs []regSpec, reqSet []int, redup bool) (completed b
 			}
 			mask := refAllow(acc, mi, pid)
 			kind, exp := "", ""
+			hookCalls := w.nfCalls + w.naCalls
 			if mask != 0 {
 				w.c.R405++
 				w.c.Nontrivial++
 				exp = "405 Allow=" + maskString(mask)
+				if w.na >= 0 {
+					// the statement's 405 + Allow clause describes the default answer; with a custom
+					// NotAllowed handler installed the router hands the request to it (and the
+					// pinned router then sets neither status nor Allow): demand only that this
+					// handler is reached exactly once, and no other handler
+					exp = "custom NotAllowed handler called once (other methods matching: " + maskString(mask) + ")"
+					w.c.HookNA++
+				}
 				switch {
 				case w.calls > 0:
 					kind = "spurious-dispatch"
+				case hookCalls > 1:
+					kind = "hook-multi-call"
+				case w.nfCalls > 0:
+					kind = "404-instead-of-405" // the not-found path was taken (custom NotFound handler reached)
+				case w.na >= 0 && w.naCalls == 1:
 				case rec.code == http.StatusNotFound:
 					kind = "404-instead-of-405"
+				case w.na >= 0:
+					kind = "notallowed-hook-missed"
 				case rec.code != http.StatusMethodNotAllowed:
 					kind = "wrong-status"
 				case allowMask(rec.allow) != mask:
 					kind = "wrong-allow"
 				}
 				if w.sampling && len(w.samples) < 12 && len(w.samples)%3 == 2 {
-					w.samples = append(w.samples, map[string]any{"table": tableString(regs), "request": allMethods[mi] + " " + paths[pid].raw,
+					w.samples = append(w.samples, map[string]any{"table": tableString(regs) + hooksString(w.nf, w.na), "request": allMethods[mi] + " " + paths[pid].raw,
 						"reference": exp, "observed": w.observed(rec, regs)})
 				}
 			} else {
@@ -494,11 +630,22 @@ func (w *worker) runTable(regs []regSpec, reqSet []int, redup bool) (completed b
 					w.c.Nontrivial++
 				}
 				exp = "404"
+				if w.nf >= 0 {
+					exp = "custom NotFound handler called once"
+					w.c.HookNF++
+				}
 				switch {
 				case w.calls > 0:
 					kind = "spurious-dispatch"
+				case hookCalls > 1:
+					kind = "hook-multi-call"
+				case w.naCalls > 0:
+					kind = "405-instead-of-404" // the not-allowed path was taken (custom NotAllowed handler reached)
+				case w.nf >= 0 && w.nfCalls == 1:
 				case rec.code == http.StatusMethodNotAllowed:
 					kind = "405-instead-of-404"
+				case w.nf >= 0:
+					kind = "notfound-hook-missed"
 				case rec.code != http.StatusNotFound:
 					kind = "wrong-status"
 				}
@@ -523,7 +670,7 @@ func (w *worker) runTable(regs []regSpec, reqSet []int, redup bool) (completed b
 						}
 					}
 				}
-				w.record(kind+":"+sh+reqFlags(pid), regs, mi, pid, exp, w.observed(rec, regs))
+				w.record(kind+":"+sh+reqFlags(pid)+hookFlag, regs, mi, pid, exp, w.observed(rec, regs))
 			}
 		}
 	}
@@ -565,16 +712,29 @@ type replayReg struct {
 }
 
 type replayCase struct {
-	Routes   []replayReg `json:"routes"`
-	ReqMeth  string      `json:"request_method,omitempty"`
-	ReqPath  string      `json:"request_path,omitempty"`
-	Expected string      `json:"expected"`
-	Observed string      `json:"observed"`
-	GoTest   string      `json:"go_test"`
+	Routes []replayReg `json:"routes"`
+	// custom handlers: installed after that many Handle calls (absent: not installed)
+	NotFoundAfter   *int `json:"set_not_found_handler_after,omitempty"`
+	NotAllowedAfter *int `json:"set_not_allowed_handler_after,omitempty"`
+	// Tree: the routes were added to a search.Tree directly (patterns not cleaned, methods unused)
+	Tree     bool   `json:"direct_search_tree,omitempty"`
+	ReqMeth  string `json:"request_method,omitempty"`
+	ReqPath  string `json:"request_path,omitempty"`
+	Expected string `json:"expected"`
+	Observed string `json:"observed"`
+	GoTest   string `json:"go_test"`
 }
 
 func (c *cand) replay() replayCase {
-	rc := replayCase{Expected: c.exp, Observed: c.got}
+	rc := replayCase{Expected: c.exp, Observed: c.got, Tree: c.tree}
+	if c.nf >= 0 {
+		v := c.nf
+		rc.NotFoundAfter = &v
+	}
+	if c.na >= 0 {
+		v := c.na
+		rc.NotAllowedAfter = &v
+	}
 	for _, g := range c.regs {
 		rc.Routes = append(rc.Routes, replayReg{allMethods[g.m], pats[g.p].raw})
 	}
@@ -588,12 +748,36 @@ func (c *cand) replay() replayCase {
 // goTest renders the case as a plain test against the public API (no harness needed).
 func goTest(rc replayCase) string {
 	var sb strings.Builder
+	if rc.Tree {
+		sb.WriteString("func TestC09Repro(t *testing.T) { // in core/search; imports: testing\n")
+		sb.WriteString("\ttr := NewTree()\n")
+		for i, g := range rc.Routes {
+			fmt.Fprintf(&sb, "\tt.Log(tr.Add(%q, %d))\n", g.Pattern, i)
+		}
+		if rc.ReqPath != "" {
+			fmt.Fprintf(&sb, "\tt.Log(tr.Search(%q)) // expected: %s\n", rc.ReqPath, rc.Expected)
+		} else {
+			fmt.Fprintf(&sb, "\t// expected: %s\n", rc.Expected)
+		}
+		sb.WriteString("}\n")
+		return sb.String()
+	}
 	sb.WriteString("func TestC09Repro(t *testing.T) { // imports: fmt, net/http, net/http/httptest, testing, rest/pathvar, rest/router\n")
 	sb.WriteString("\trt, hit := router.NewRouter(), \"\"\n")
-	sb.WriteString("\th := func(n string) http.Handler { return http.HandlerFunc(func(w http.ResponseWriter, r *http.Request) { hit = fmt.Sprint(n, \" \", pathvar.Vars(r)) }) }\n")
-	for _, g := range rc.Routes {
+	sb.WriteString("\th := func(n string) http.Handler { return http.HandlerFunc(func(w http.ResponseWriter, r *http.Request) { hit += fmt.Sprint(\"[\", n, \" \", pathvar.Vars(r), \"]\") }) }\n")
+	hooks := func(done int) {
+		if rc.NotFoundAfter != nil && *rc.NotFoundAfter == done {
+			sb.WriteString("\trt.SetNotFoundHandler(h(\"custom NotFound\"))\n")
+		}
+		if rc.NotAllowedAfter != nil && *rc.NotAllowedAfter == done {
+			sb.WriteString("\trt.SetNotAllowedHandler(h(\"custom NotAllowed\"))\n")
+		}
+	}
+	for i, g := range rc.Routes {
+		hooks(i)
 		fmt.Fprintf(&sb, "\tt.Log(rt.Handle(%q, %q, h(%q)))\n", g.Method, g.Pattern, g.Method+" "+g.Pattern)
 	}
+	hooks(len(rc.Routes))
 	if rc.ReqPath != "" {
 		sb.WriteString("\trec := httptest.NewRecorder()\n")
 		fmt.Fprintf(&sb, "\trt.ServeHTTP(rec, httptest.NewRequest(%q, %q, nil))\n", rc.ReqMeth, rc.ReqPath)
